@@ -102,7 +102,21 @@ def _run_jobs(m, jobs, seed=0, no_prss=False):
             res.append([int(a) for a in v] if isinstance(v, list) else int(v))
         return res
 
-    results = net.run(prog)
+    try:
+        results = net.run(prog)
+    except (simnet.PartyError, simnet.Deadlock) as exc:
+        if len(jobs) == 1:
+            return [{'value': f'CRASH {type(exc).__name__}: {str(exc)[:160]}', 'consumed': 0, 'short': None,
+                     'transcript': [], 'agree': True}]
+        out = []
+        for job in jobs:                    # find the failing job(s); stop after the first crash
+            r = _run_jobs(m, [job], seed, no_prss)[0]
+            out.append(r)
+            if isinstance(r['value'], str):
+                out += [{'value': 'SKIPPED', 'consumed': 0, 'short': None, 'transcript': [], 'agree': True}] * \
+                    (len(jobs) - len(out))
+                break
+        return out
     out = []
     for idx, (fn, n, prefix) in enumerate(jobs):
         root = ('A', idx)
@@ -129,6 +143,11 @@ def enum_tree(fn, n, m, depth, seed=0):
         for p, r in zip(level, res):
             if not r['agree']:
                 leaves.append((p, 'PARTIES-DISAGREE', r['transcript']))
+                continue
+            if isinstance(r['value'], str):
+                if r['value'] != 'SKIPPED':
+                    leaves.append((p, r['value'], r['transcript']))
+                    return leaves, cut
                 continue
             if r['short'] is None:
                 if r['consumed'] != len(p):
@@ -511,7 +530,7 @@ def _plain(v):
 def run_calls(m, calls, seed, no_prss=False, control=True):
     """Run the calls on the real code in one SimNet; returns per call (value, flat stream, transcript, agree)."""
     SRC.reset(seed=seed)
-    net = SimNet(m, seed=seed, no_prss=no_prss, max_steps=200_000_000)
+    net = SimNet(m, seed=seed, no_prss=no_prss, max_steps=300_000 + 6000 * len(calls))
     ro.install(net, control_bits=control)
 
     async def prog(mpc):
@@ -533,7 +552,17 @@ def run_calls(m, calls, seed, no_prss=False, control=True):
                 res.append(_plain(await _open(mpc, r)))
         return res
 
-    results = net.run(prog)
+    try:
+        results = net.run(prog)
+    except (simnet.PartyError, simnet.Deadlock) as exc:
+        if len(calls) == 1:
+            return [(('EXC', f'{type(exc).__name__}: {str(exc)[:160]}'), [], [], True)]
+        out = []
+        for call in calls:                  # isolate the failing call; the others are not evaluated
+            r = run_calls(m, [call], seed, no_prss, control)[0]
+            if isinstance(r[0], tuple) and r[0] and r[0][0] == 'EXC':
+                return [r if c is call else (('EXC', 'SKIPPED'), [], [], True) for c in calls]
+        return [(('EXC', 'crash only in the batch: ' + str(exc)[:120]), [], [], True)] * len(calls)
     out = []
     for idx, call in enumerate(calls):
         root = ('B', idx)
@@ -561,7 +590,8 @@ def part_b(ctx, lines, impl):
                     ctx.violation(f'{call[0]}: parties disagree on the result', rep)
                     continue
                 if isinstance(val, tuple):
-                    ctx.violation(f'{call[0]}{call[1:]} raised {val[1]}', rep)
+                    if val[1] != 'SKIPPED':
+                        ctx.violation(f'{call[0]}{call[1:]} raised {val[1]}', rep)
                     continue
                 msg = shape_error(call, val)
                 if msg:
@@ -734,7 +764,8 @@ def part_c(ctx):
             ctx.case(('C', repr(call), repr(val), no_prss))
             rep = {'kind': 'real-bits', 'call': list(call), 'm': 3, 'no_prss': no_prss, 'seed': seed, 'observed': val}
             if not agree or isinstance(val, tuple):
-                ctx.violation(f'{call[0]}{call[1:]} with real random bits: parties disagree or exception {val}', rep)
+                if not (isinstance(val, tuple) and val[1] == 'SKIPPED'):
+                    ctx.violation(f'{call[0]}{call[1:]} with real random bits: parties disagree or exception {val}', rep)
                 continue
             msg = shape_error(call, val)
             if msg:
@@ -881,13 +912,25 @@ def part_d(ctx, lines, impl):
                        'seed': ctx.seed, 'expected': 1.5, 'observed': res['uniform-degenerate']})
 
 
+def _guard(ctx, part, fn):
+    """a crash or hang of the real code inside a part is a finding, not an infrastructure problem"""
+    try:
+        return fn()
+    except (simnet.PartyError, simnet.Deadlock) as exc:
+        ctx.violation(f'part {part}: the real code crashed or hung: {type(exc).__name__}: {str(exc)[:300]}',
+                      {'kind': 'crash', 'part': part, 'seed': ctx.seed, 'tier': ctx.tier,
+                       'observed': f'{type(exc).__name__}: {str(exc)[:300]}', 'expected': 'run completes'})
+        return None
+
+
 def run(ctx):
     lines, impl = [], []
-    trees = part_a(ctx, lines, impl)
-    part_b(ctx, lines, impl)
-    part_b_exact(ctx, trees)
-    part_d(ctx, lines, impl)
-    part_c(ctx)
+    trees = _guard(ctx, 'A', lambda: part_a(ctx, lines, impl))
+    _guard(ctx, 'B', lambda: part_b(ctx, lines, impl))
+    if trees is not None:
+        _guard(ctx, 'B-exact', lambda: part_b_exact(ctx, trees))
+    _guard(ctx, 'D', lambda: part_d(ctx, lines, impl))
+    _guard(ctx, 'C', lambda: part_c(ctx))
     model = common.LeanDriver('RandStat').run(lines)
     ctx.compare('mpyc.random vs MpycV.Random (value, opened transcript, bits consumed)', impl, model, lines)
 
@@ -918,7 +961,7 @@ def replay(ctx, data):
         c2 = common.Ctx('C33', 'quick', 0)
         n = data['n']
         val = leaves[0][1]
-        ok = (isinstance(val, int) and 0 <= val < n) if data['function'] == 'randbelow' else \
+        ok = (isinstance(val, int) and not isinstance(val, bool) and 0 <= val < n) if data['function'] == 'randbelow' else \
             (isinstance(val, list) and len(val) == n and sorted(val) == [0] * (n - 1) + [1])
         return ok, f'{data["function"]}({n}) on bits {data["stream"]} -> {val}'
     if kind == 'enum-uniform':
@@ -935,6 +978,22 @@ def replay(ctx, data):
         msg = 'parties disagree' if not agree else (f'raised {val[1]}' if isinstance(val, tuple)
                                                     else shape_error(call, val))
         return msg is None, f'{call} -> {val}: {msg or "ok"}'
+    if kind == 'crash':
+        c2 = common.Ctx('C33', data.get('tier', 'quick'), data.get('seed', 0))
+        part = data['part']
+        if part == 'A':
+            _guard(c2, 'A', lambda: part_a(c2, [], []))
+        elif part == 'B':
+            _guard(c2, 'B', lambda: part_b(c2, [], []))
+        elif part == 'C':
+            _guard(c2, 'C', lambda: part_c(c2))
+        elif part == 'D':
+            _guard(c2, 'D', lambda: part_d(c2, [], []))
+        else:
+            trees = {(fn, n, 1): enum_tree(fn, n, 1, 3 * (n - 1).bit_length())[0] for fn in ('randbelow', 'ruv')
+                     for n in range(1, 9)}
+            _guard(c2, 'B-exact', lambda: part_b_exact(c2, trees))
+        return not c2.violations, (c2.violations[0][0] if c2.violations else 'ok')
     if kind == 'uniform-degenerate':
         c2 = common.Ctx('C33', 'quick', data.get('seed', 0))
         part_d(c2, [], [])
